@@ -156,8 +156,9 @@ def model_check(main_tla, cfg_text, name, workers=None, timeout=1800, expect_vio
 
 
 TRACE_JVM = '-XX:ParallelGCThreads=2 -Xms1g -Xmx4g -Xss512m -Dtlc2.tool.queue.IStateQueue=StateDeque'
-ACCEPT_RE = re.compile(r'<<"ACCEPT",\s*(.*?)>>\s*$', re.M)
-REJECT_RE = re.compile(r'<<"REJECT",\s*(\d+),\s*"([^"]*)",\s*\{(.*?)\}>>', re.S)
+# TLC wraps long tuples over several lines and then puts blanks after << and before >>
+ACCEPT_RE = re.compile(r'<<\s*"ACCEPT",\s*([-\d,\s]*?)\s*>>', re.S)
+REJECT_RE = re.compile(r'<<\s*"REJECT",\s*(\d+),\s*"([^"]*)",\s*\{(.*?)\}\s*>>', re.S)
 
 
 def validate_trace(trace_file, mode, spec='ChessTrace.tla', constants=None, timeout=1800, invariants=('SpecStateOK',)):
@@ -245,6 +246,9 @@ def save_replay(prop, seed, idx, payload, trace_src=None, cut_line=None):
     return path
 
 
+VIOLATIONS_REPORTED = [0]     # VIOLATION lines printed by this process
+
+
 class Verdict:
     """Collects violations / known findings of one check run and produces the exit code."""
 
@@ -264,6 +268,7 @@ class Verdict:
         payload = dict(payload, property=self.prop, signature=signature, seed=self.seed)
         path = save_replay(self.prop, self.seed, len(self.violations), payload, trace_src, cut_line)
         self.violations.append((signature, path))
+        VIOLATIONS_REPORTED[0] += 1
         print('VIOLATION property=%s replay=%s' % (self.prop, path), flush=True)
         log('  what: %s' % json.dumps(signature)[:600])
 
